@@ -31,9 +31,10 @@ type captured struct {
 
 // ctxBody behaves like a real transport's body: reading after the request context was cancelled fails.
 type ctxBody struct {
-	ctx  context.Context
-	r    io.Reader
-	fail error
+	ctx     context.Context
+	r       io.Reader
+	fail    error
+	failEOF error // what the body reports once its bytes are used up (a dropped connection: io.ErrUnexpectedEOF)
 }
 
 func (b *ctxBody) Read(p []byte) (int, error) {
@@ -43,7 +44,11 @@ func (b *ctxBody) Read(p []byte) (int, error) {
 	if err := b.ctx.Err(); err != nil {
 		return 0, err
 	}
-	return b.r.Read(p)
+	n, err := b.r.Read(p)
+	if err == io.EOF && b.failEOF != nil {
+		err = b.failEOF
+	}
+	return n, err
 }
 func (b *ctxBody) Close() error { return nil }
 
@@ -51,6 +56,7 @@ type stub struct {
 	reqs      []captured
 	transport error // injected transport failure
 	readErr   error // injected body-read failure
+	truncated bool  // the response announces more bytes than arrive: the connection drops after respBody
 	respBody  string
 }
 
@@ -74,8 +80,13 @@ func (s *stub) RoundTrip(req *http.Request) (*http.Response, error) {
 	if s.transport != nil {
 		return nil, s.transport
 	}
-	return &http.Response{StatusCode: 200, Status: "200 OK", Proto: "HTTP/1.1", ProtoMajor: 1, ProtoMinor: 1, Header: http.Header{},
-		Body: &ctxBody{ctx: req.Context(), r: strings.NewReader(s.respBody), fail: s.readErr}, Request: req}, nil
+	resp := &http.Response{StatusCode: 200, Status: "200 OK", Proto: "HTTP/1.1", ProtoMajor: 1, ProtoMinor: 1, Header: http.Header{},
+		Body: &ctxBody{ctx: req.Context(), r: strings.NewReader(s.respBody), fail: s.readErr}, Request: req, ContentLength: int64(len(s.respBody))}
+	if s.truncated {
+		resp.ContentLength = int64(len(s.respBody)) + 100
+		resp.Body.(*ctxBody).failEOF = io.ErrUnexpectedEOF
+	}
+	return resp, nil
 }
 
 type payload struct {
@@ -220,7 +231,7 @@ func main() {
 			}
 		}
 		// injected faults and body shapes on a representative template
-		for _, fault := range []string{"serializer", "transport", "body-read", "deserializer", "deserializer-nil", "deserializer-foreign-value", "deserializer-typed-nil", "unserialisable-body", "nil-body"} {
+		for _, fault := range []string{"serializer", "transport", "body-read", "body-truncated", "deserializer", "deserializer-nil", "deserializer-foreign-value", "deserializer-typed-nil", "unserialisable-body", "nil-body"} {
 			for _, hdr := range headers {
 				inputs++
 				oneCase(ct, base, "{x}/b/{y}", network.PathParam{"x": 1, "y": "v"}, hdr, fault, &samples)
@@ -499,6 +510,9 @@ func oneCase(ct ctor, base, tmpl string, pp network.PathParam, hdr http.Header, 
 	case "body-read":
 		st.readErr = errors.New("read failed")
 		wantErr = "read failed"
+	case "body-truncated": // the whole JSON document arrives, then the connection drops short of the announced length
+		st.truncated = true
+		wantErr = "unexpected EOF"
 	case "deserializer":
 		api.ResponseDeserializer = func(b []byte, t interface{}) (interface{}, error) { return t, desErr }
 		wantErr = desErr.Error()
